@@ -148,8 +148,8 @@ def main(argv) -> int:
                 chk.harness_error(f"worker failed: {err!r}")
     if chk.tier == "thorough":
         check_model(chk, "corpus/v3", corpus.v3())
-    chk.require_min("constant_sets_compared", chk.pick(100, 3000))
-    chk.require_min("primitive_constants_compared", chk.pick(50, 1500))
-    chk.require_min("enumerations_compared", chk.pick(100, 3000))
-    chk.require_min("from_str_evaluations", chk.pick(1000, 30000))
+    chk.require_min("constant_sets_compared", chk.pick(100, 1000))
+    chk.require_min("primitive_constants_compared", chk.pick(50, 500))
+    chk.require_min("enumerations_compared", chk.pick(100, 1000))
+    chk.require_min("from_str_evaluations", chk.pick(1000, 10000))
     return chk.finish()
